@@ -6,7 +6,7 @@
 From Coq Require Import Ascii ZifyBool.
 From Cassis Require Import Base Offsets OffsetsProofs.
 From Cassis Require Import Heap Schema Canon Lex LexProofs Reach ReachProofs ReachSpec XmiDoc Xmi XmiProofs XmiWf XmiDocOk XmiResave XmiLoad XmiRt
-                           XmiRtProofs XmiRtTotal.
+                           XmiRtProofs XmiRtTotal XmiLoadCas.
 From Cassis Require XmiLoadProofs XmiLoadProofs2 XmiLoadProofs3.
 Open Scope Z_scope.
 
@@ -156,6 +156,26 @@ Theorem xmi_roundtrip s c d c1 :
 Proof.
   intros WT HS. destruct (reader_total_on_saved s c d c1 WT HS) as (c2 & HL). exists c2. split; [exact HL|].
   destruct (wf_rt_totalb_parts s c WT) as [WR _]. exact (xmi_roundtrip_load fmt_flt parse_flt flt_rt flt_tok s c d c1 c2 WR HS HL).
+Qed.
+
+(* [S], under boolean premises on the loaded CAS: the CAS the reader built (as a CAS of the writer model, cas_of_lcas) is saved
+   and loaded again with its content unchanged; if the document it was loaded from was itself the writer's output for a
+   well-formed CAS, the re-save has the elements of that document.  The premises wf_rt_totalb s c2 and "c2 has the canonical
+   content of the loaded CAS" are the conclusion of load_produces_wf (not proved; evaluated on every case, CorrC01 (8)). *)
+Theorem loaded_cas_roundtrip s d lc c2 d2 c3 :
+  load_xmi parse_flt s false d = Ok lc -> cas_of_lcas lc = Ok c2 -> wf_rt_totalb s c2 = true ->
+  (do x <- canon_xmi s c2 ;; Ok (norm_xmi s x)) = (do y <- canon_loaded s lc ;; Ok (norm_xmi s y)) ->
+  save_xmi fmt_flt s c2 = Ok (d2, c3) ->
+  exists lc2, load_xmi parse_flt s false d2 = Ok lc2 /\ canon_loaded s lc2 = (do y <- canon_loaded s lc ;; Ok (norm_xmi s y)).
+Proof.
+  intros _ _ WT EC HS. destruct (xmi_roundtrip s c2 d2 c3 WT HS) as (lc2 & HL & HC). exists lc2. split; [exact HL|]. rewrite HC. exact EC.
+Qed.
+Theorem loaded_cas_resave s c d c1 lc c2 d2 c3 :
+  wf_rtb s c = true -> save_xmi fmt_flt s c = Ok (d, c1) -> load_xmi parse_flt s false d = Ok lc ->
+  cas_of_lcas lc = Ok c2 -> wf_inb s c2 = true -> (do x <- canon_xmi s c2 ;; Ok (norm_xmi s x)) = canon_loaded s lc ->
+  save_xmi fmt_flt s c2 = Ok (d2, c3) -> Permutation d2 d.
+Proof.
+  intros WR HS HL _ WB EC HS2. exact (xmi_resave_after_load fmt_flt parse_flt flt_rt flt_tok s c d c1 lc c2 d2 c3 WR HS HL WB EC HS2).
 Qed.
 End Main.
 
